@@ -148,6 +148,35 @@ func sortedAcctKeys(m map[string]*acct) []string {
 
 // checkCode is the C07 oracle: code entry exists <=> referenced, NumReferences == number of referring accounts.
 func (r *run) checkCode() {
+	// first from the accounts as the API shows them: every code hash an account refers to must have an entry whose
+	// reference count is the number of accounts holding that hash
+	held := map[string]int{}
+	for i := 0; i < r.nAddr; i++ {
+		acc, err := r.se.ADB.GetExistingAccount(Addr(i))
+		if err != nil {
+			continue
+		}
+		if h := acc.(state.UserAccountHandler).GetCodeHash(); len(h) > 0 {
+			held[string(h)]++
+		}
+	}
+	hashes := make([]string, 0, len(held))
+	for h := range held {
+		hashes = append(hashes, h)
+	}
+	sort.Strings(hashes)
+	for _, h := range hashes {
+		raw, err := r.se.ADB.VerifMainTrieGet([]byte(h))
+		ce := &state.CodeEntry{}
+		if err != nil || len(raw) == 0 || triekit.Marshalizer.Unmarshal(ce, raw) != nil {
+			r.c.Violate("C07", "missing-code-entry", "code entry", "%d account(s) refer to code hash %x but no code entry exists under it (err %v)", held[h], h, err)
+			return
+		}
+		if int(ce.NumReferences) != held[h] {
+			r.c.Violate("C07", "wrong-reference-count", "code entry", "code hash %x: NumReferences=%d but %d account(s) refer to it", h, ce.NumReferences, held[h])
+			return
+		}
+	}
 	for k, code := range r.codes {
 		h := triekit.Hash(code)
 		refs := r.m.refs(h)
@@ -371,7 +400,11 @@ func (r *run) step(st *simkit.Step) {
 		}
 		if sel := st.Int(2, -1); sel >= 0 {
 			if sel == 0 {
-				ua.SetCode(nil)
+				if st.Int(5, 0)%2 == 1 {
+					ua.SetCode([]byte{}) // cleared with an empty, non-nil slice (e.g. decoded from an empty string)
+				} else {
+					ua.SetCode(nil)
+				}
 				na.codeHash = nil
 			} else {
 				code := r.codes[(int(sel)-1)%len(r.codes)]
